@@ -295,6 +295,7 @@ RULE = (
     "when n_sources <= n_receptors, achieved objective for excitation, fit quality and summed variance for minimisation; 1e-5 with the "
     "high-accuracy CLARABEL pass-through (2e-2 for the SCS bisection of the excitation model). Any exception is a violation. "
     "Non-trivial = padded last batch, batch larger than the sample count, dividing batch > 1, or a row operation."
+    " Both entry points (functions and ReceptorEstimator, which passes scalar K / baseline as one-element arrays); duplicated rows carry other per-sample weights; the last row of every call is compared with the same row fitted alone."
 )
 
 PROP = Prop(
